@@ -43,14 +43,14 @@ def ensure_wt():
 def demo(name, tag):
     d = os.path.join(SEEDED, name)
     exe = "/tmp/vseed/demo_%s_%s" % (name, tag)
-    r = sh("g++ -std=c++17 -O1 -I%s/include '-DYOMM2_INCLUDE_DIR=\"%s/include\"' %s/demo.cpp -o %s" % (WT, WT, d, exe), timeout=1800)
+    r = sh("g++ -std=c++17 -O1 -I%s/include '-DYOMM2_INCLUDE_DIR=\"%s/include\"' '-DYOMM2_INC=\"%s/include\"' %s/demo.cpp -o %s" % (WT, WT, WT, d, exe), timeout=1800)
     if r.returncode:
         return "compile failed: " + r.stdout[-600:], None
     rcs = []
     out = ""
     for _ in range(2):
         try:
-            p = sh(exe, timeout=600)
+            p = sh(exe, timeout=600, cwd="/tmp/vseed")
             rcs.append(p.returncode)
             out = p.stdout[-400:]
         except subprocess.TimeoutExpired:
